@@ -11,7 +11,7 @@ Judge(e) ==
         \cup (IF e.execs # 0 THEN {<<"RefusedBeforeSend", "command reached the device">>} ELSE {})
         \cup (IF e.obj THEN {<<"RefusedLeavesNothing", "command object returned">>} ELSE {})
     ELSE (IF e.exc # "" THEN {<<"ValidRequestAccepted", e.exc>>} ELSE {})
-         \cup (IF e.k \in {"prin_sa", "facade_bs0"} /\ e.exc = "" /\ e.execs # 1 THEN {<<"ExactlyOnce", ToString(e.execs)>>} ELSE {})
+         \cup (IF e.k \in {"prin_sa", "facade_bs0", "facade_bs_reset"} /\ e.exc = "" /\ e.execs # 1 THEN {<<"ExactlyOnce", ToString(e.execs)>>} ELSE {})
 TInit == l = 1
 Step == /\ l <= Len(Trace)
         /\ \A v \in Judge(Trace[l]) : PrintT(<<"VERDICT", ToJson([i |-> l, clause |-> v[1], detail |-> v[2]])>>)
